@@ -255,6 +255,10 @@ class FnLower:
                 if self.is_glvalue(n):
                     raise Unsupported('rv of glvalue NoOp')
                 return self.rv(c)
+            if ck == 'IntegralCast' and self.L.ctype(qt(n)) in ('unsigned long', 'unsigned int', 'unsigned long long') and \
+                    self.L.ctype(qt(c)) in ('int', 'long', 'long long', 'short', 'signed char'):
+                # signed -> unsigned is modular arithmetic in C++ (well defined): not an overflow
+                return '((%s)vf_s2u_%s(%s))' % (self.L.ctype(qt(n)), '32' if self.L.ctype(qt(n)) == 'unsigned int' else '64', self.rv(c))
             if ck in ('IntegralCast', 'BitCast', 'IntegralToFloating', 'FloatingToIntegral',
                       'FloatingCast', 'IntegralToPointer', 'PointerToIntegral'):
                 return '((%s)%s)' % (self.L.ctype(qt(n)), self.rv(c))
@@ -581,6 +585,20 @@ class FnLower:
             raise Unsupported('into cast kind %s' % ck)
         if k in CTOR_KINDS:
             return self.construct(n, dest)
+        if k == 'UserDefinedLiteral':
+            # std::chrono literal (200ms, 1s ...): the token is read from the source text
+            b = n.get('_begin')
+            off = n.get('range', {}).get('begin', {}).get('offset')
+            tl = n.get('range', {}).get('begin', {}).get('tokLen')
+            if b is None or off is None or tl is None or self.L.ctype(qt(n)) != 'struct vf_msec':
+                raise Unsupported('user-defined literal of type ' + qt(n))
+            tok = open(b[0], 'rb').read()[off:off + tl].decode()
+            m = re.fullmatch(r"([0-9][0-9']*)(ms|s|min|h)", tok)
+            if not m:
+                raise Unsupported('user-defined literal ' + tok)
+            val = int(m.group(1).replace("'", '')) * {'ms': 1, 's': 1000, 'min': 60000, 'h': 3600000}[m.group(2)]
+            self.emit('(%s)->ticks = %d;   /* %s */' % (dest, val, tok))
+            return
         if k in CALL_KINDS:
             return self.call(n, mode='into', dest=dest)
         if k == 'ConditionalOperator':
@@ -813,6 +831,10 @@ class FnLower:
                 mname = 'dtor'
             else:
                 mname = name
+            if mname == 'push_back' and len(ks) == 2 and ks[1].get('valueCategory') in ('xvalue', 'prvalue'):
+                # overload resolution picks push_back(T&&) exactly for rvalue arguments: it moves,
+                # so it is told apart from the copying push_back(const T&)
+                mname = 'push_back_rv'
             return dict(kind='ext', name='%s__%s__%d' % (cn, mname, len(ks) - 1), selfp=selfp, args=ks[1:])
         callee = self.strip_parens(ks[0])
         while callee['kind'] in CAST_KINDS:
